@@ -45,7 +45,22 @@ Proof. exact auto_arg_reduction_never_blockwise. Qed.
 Theorem C19_choose_method_rules : forall r, In r choose_method_rows -> row_ok r = true.
 Proof. exact choose_method_rules. Qed.
 
+(* _validate_reindex, tabulated from the running code on its whole abstracted domain: an explicit reindex is
+   honoured or refused for a documented reason with ValueError / NotImplementedError only; with reindex unset the
+   block stage reindexes (simple combine) only when every block can be reindexed to groups known up front *)
+Theorem C19_validate_reindex_rules : forall r, In r validate_reindex_rows -> rrow_ok r = true.
+Proof. exact validate_reindex_rules. Qed.
+
+Theorem C19_auto_reindex_true_only_when_safe :
+  forall name is_arg first_last m expected by_dask arr_dask,
+    In (name, is_arg, first_last, None, Some m, expected, by_dask, arr_dask, RStrategy (Some true)) validate_reindex_rows ->
+    (arr_dask || by_dask) = true -> m <> MBlockwise ->
+    first_last = false /\ is_arg = false /\ m <> MCohorts /\ (expected = true \/ by_dask = false).
+Proof. exact auto_reindex_true_only_when_safe. Qed.
+
 Print Assumptions C19_checker_sound.
+Print Assumptions C19_validate_reindex_rules.
+Print Assumptions C19_auto_reindex_true_only_when_safe.
 Print Assumptions C19_choose_table_covers_domain.
 Print Assumptions C19_explicit_method_kept.
 Print Assumptions C19_auto_partial_axes_is_map_reduce.
